@@ -35,7 +35,7 @@ def exhaustive(tier):
 def required(tier):
     return {"answers_compared": 2500, "repeated_after_state_change": 800, "cache_hits_observed": 500,
             "state_changes": 300, "distinct_states": 15, "second_registry_touches": 20,
-            "redefinition_histories": 20, "keyword_activations": 50, "keyword_override_histories": 20, "redefining_context_histories": 8, "new_name_histories": 6}
+            "redefinition_histories": 20, "keyword_activations": 50, "keyword_override_histories": 20, "redefining_context_histories": 8, "new_name_histories": 6, "explicit_system_histories": 8}
 
 
 NEWDEFS = ["vfu0 = 3 * meter = vf0", "vfu1 = 7 * vfu0", "vfu2 = 2 * pound * vfu1 / second ** 2",
@@ -66,6 +66,9 @@ QUESTIONS = [
     ("compat", "pound"), ("compat", "meter"), ("compat", "vfu0"),
     ("format", "mile / hour", "~P"), ("format", "vfu1", "~"), ("format", "ounce", ""),
     ("compact", "pound", 12345678), ("compact", "vfu0", 0.000012),
+    ("base_sys", "pound", "cgs"), ("base_sys", "mile / hour", "imperial"), ("base_sys", "ounce", "cgs"),
+    ("base_sys", "newton", "imperial"), ("base_sys", "stone", "mks"),
+    ("convert_raw", "dab", "barn"), ("convert_raw", "dab", "meter"), ("convert_raw", "kyd", "meter"),
     ("to_base", "ounce", 3), ("to_base", "vfu2", 2), ("to_base", "stone", 5),
     # units that depend on `pound` (redefined by the context 'vredef') at several removes, also through
     # symbols and aliases (reyn = psi * second, psi = force_pound / inch ** 2, force_pound = g_0 * pound)
@@ -96,6 +99,9 @@ def shards(tier, seed):
     for i in range(10 if tier == "quick" else 24):
         out.append({"kind": "random", "name": f"random{i}", "n": 10 if tier == "quick" else 120,
                     "nit": "fraction" if i % 3 == 2 else "float"})
+    for i in range(2 if tier == "quick" else 4):
+        out.append({"kind": "sysarg", "name": f"sysarg{i}", "n": 4 if tier == "quick" else 40,
+                    "nit": "fraction" if i % 2 else "float"})
     for i in range(2 if tier == "quick" else 6):
         out.append({"kind": "newname", "name": f"newname{i}", "n": 3 if tier == "quick" else 30,
                     "nit": "fraction" if i % 2 else "float"})
@@ -170,6 +176,13 @@ def answer(ureg, pint, q):
         if kind == "base":
             f, u = ureg.get_base_units(q[1])
             return repr((f, _items(u._units._d)))
+        if kind == "base_sys":
+            # the explicit system= argument: an answer for ANOTHER system than the default one
+            f, u = ureg.get_base_units(q[1], system=q[2])
+            return repr((f, _items(u._units._d)))
+        if kind == "convert_raw":
+            # units given as a raw mapping of spellings (not re-parsed to canonical names by a string parse)
+            return repr(ureg.convert(ureg.non_int_type(1), ureg.UnitsContainer({q[1]: 1}), q[2]))
         if kind == "root":
             f, u = ureg.get_root_units(q[1])
             return repr((f, _items(u._units._d)))
@@ -394,6 +407,21 @@ def run_shard(spec, rec):
                     ops += ["q%d" % i for i in range(8)]
                 run_history(ops, world, rec, rng, "bfs")
         rec.sample({"bfs_prefix_example": list(itertools.islice(itertools.product(alphabet, repeat=spec["length"]), 5, 6))})
+    elif spec["kind"] == "sysarg":
+        # base units asked for an EXPLICIT system and, for the same units, for the default one
+        pool = [("base_sys", "pound", "cgs"), ("base", "pound"), ("base_sys", "mile / hour", "imperial"),
+                ("base", "mile / hour"), ("base_sys", "ounce", "cgs"), ("base", "ounce"), ("to_base", "ounce", 3),
+                ("base_sys", "stone", "mks")]
+        for i in range(spec["n"]):
+            order = list(range(8))
+            if i % 2:
+                rng.shuffle(order)
+            allq = [f"q{j}" for j in order]
+            ops = list(allq)
+            for _ in range(rng.randint(1, 4)):
+                ops += [rng.choice(("sys", "sys", "ctx_rule_on", "ctx_off", "define"))] + allq
+            run_history(ops, world, rec, rng, "sysarg", pool=list(pool))
+            rec.count("explicit_system_histories")
     elif spec["kind"] == "newname":
         # every definition step of NEWDEFS in turn, with the questions about the names they introduce
         # (dab: read as deca + barn until defined; vpfx: a new prefix; vfu*) asked before and after each
